@@ -120,6 +120,19 @@ def run_blackbody(W, cfg):
         b = bbv[narrow.index(g)] if g in narrow else fill
         want.append(OPS[cfg['op']](v[k], b) if cfg['side'] == 'right' else OPS[cfg['op']](b, v[k]))
     W.ob('a Blackbody operand is the fill value outside its own range (compared relative to its peak)', rnp.asarray(res.value, dtype=float) / scale, rnp.array(want) / scale)
+    # the same blackbody described in micrometres (a finer-sampled operand so that it is interpolated between its own samples): same result
+    fine = rnp.array([500.0, 505.0, 510.0, 515.0, 520.0, 525.0, 530.0, 535.0, 540.0])
+    sf = R.Spectrum(fine, rnp.linspace(float(v[0]), float(v[4]), 9) + 2.0)
+    bb_nm = R.Blackbody(rnp.array([500.0, 520.0, 540.0]), T, waveunit='nm')
+    bb_um = R.Blackbody(rnp.array([0.500, 0.520, 0.540]), T, waveunit='um')
+    W.ob_true('a copy of a Blackbody is a Blackbody', type(bb_nm.copy()) is R.Blackbody)
+    r_nm = getattr(sf, cfg['op'])(bb_nm, fill_value=fill)
+    r_um = getattr(sf, cfg['op'])(bb_um, fill_value=fill)
+    # a density per micrometre is 1000 x the density per nanometre: the Blackbody values are rescaled by to(), the left operand's are unitless
+    W.ob('Blackbody operand in micrometres: same grid', r_um.wave, r_nm.wave)
+    sc2 = max(abs(float(x)) for x in bb_nm.value)
+    if cfg['op'] == 'multiply':
+        W.ob('Blackbody operand in micrometres: same physical product', rnp.asarray(r_um.value, dtype=float) / sc2, rnp.asarray(r_nm.value, dtype=float) / sc2)
 
 
 def run(W, cfg):
